@@ -104,6 +104,7 @@ var c11Exprs = []string{
 	"descendant::p:a", "//self::p:a", "//ancestor-or-self::q:*", "//attribute::p:x", "//p:a/@x", "//p:a | //q:a", "name(//p:*)", "namespace-uri(//q:*)", "local-name(//@p:*)",
 	"$n", "$s", "$b", "$ns", "$p:n", "$q:n", "$p:s", "$ns/..", "$ns[1]", "count($ns)", "$n + 1", "concat($s, $p:s)", "$b and true()", "$ns | //a", "$ns/@*", "string($ns)", "$unbound", "$p:unbound", "$r:n", "$n = $p:n",
 	"f()", "f(1)", "f(1,'a',.)", "f(//a, $n, $b)", "p:f()", "p:f(2, $s)", "q:f(//a)", "q:f()", "r:f()", "g()", "p:g()", "//a[f()]", "//*[f(position(), last())]", "//*/f()", "//a/p:f(.)", "f(f(1))", "f(p:f())",
+	"p:count(//a)", "q:true()", "p:concat('a','b')", "q:string()", "//*[p:true()]", "p:not(1)", "q:count(//a) + 1", "r:count(//a)", "p:position()", "//*[q:last()]", "p:name()",
 	"count(//a)", "count()", "true()", "not(true())", "//*[true()]", "//*[even()]", "//*/*[even()]", "f(count(//a), true())", "string-length(f())", "//*[position() = last()][f(.)]", "//node()[f()]", "//@*[f(.)]",
 }
 
@@ -261,7 +262,7 @@ func C11(c *run.Check) {
 	}
 	c.Sample(map[string]interface{}{"doc": adoc.Instantiate(jobs[len(jobs)-3].f, adoc.D3).String(), "expr": "//*[f(position(), last())]", "bindings": envs[5]})
 	c.Sample(map[string]interface{}{"doc": adoc.Instantiate(jobs[len(jobs)/2].f, adoc.D2).String(), "expr": "//@p:x", "bindings": envs[12]})
-	c.Rule = fmt.Sprintf("forests <=%d nodes x decorations with elements/attributes in namespaces urn:u/urn:v/default x %d binding environments (p,q each unbound/urn:u/urn:v incl. aliases; function library none / f,p:f / + q:f and user count() and true() shadowing builtins; variables of all four types in no namespace and in two namespaces) x %d expressions (prefixed and wildcard name tests on elements and attributes, variable references, user-function calls in paths, predicates and arguments, unbound prefix/variable/function); result compared with the reference evaluated under the same bindings, and the (arguments, context nodes, position, size) seen by the recording user functions compared as multisets; non-trivial = distinct (expression, context kind, result)", n, len(envs), len(exprs))
+	c.Rule = fmt.Sprintf("forests <=%d nodes x decorations with elements/attributes in namespaces urn:u/urn:v/default x %d binding environments (p,q each unbound/urn:u/urn:v incl. aliases; function library none / f,p:f / + q:f and user count() and true() shadowing builtins; variables of all four types in no namespace and in two namespaces) x %d expressions (prefixed and wildcard name tests on elements and attributes, variable references, user-function calls in paths, predicates and arguments, unbound prefix/variable/function, prefixed calls whose local name spells a core function); result compared with the reference evaluated under the same bindings, and the (arguments, context nodes, position, size) seen by the recording user functions compared as multisets; non-trivial = distinct (expression, context kind, result)", n, len(envs), len(exprs))
 	c.Set("environments", len(envs))
 	c.Set("documents", len(jobs))
 	c.Assume("the library's Context.ContextPosition() is 0-based (position()-1); unbound names appear only where every evaluator must evaluate them")
